@@ -483,6 +483,9 @@ var C11Concurrent func(c *eng.Ctx, next func() (int, bool))
 // then closed and the C11 order rules applied.
 var C11ResolveRace func(c *eng.Ctx, next func() (int, bool))
 
+// C11RootHandle is installed by package conc (the root scope closed through its own handle).
+var C11RootHandle func(c *eng.Ctx, next func() (int, bool))
+
 // C11ReentrantClose is installed by package conc (a Close method that closes an ancestor scope).
 var C11ReentrantClose func(c *eng.Ctx, next func() (int, bool))
 
@@ -649,6 +652,9 @@ func runC11(c *eng.Ctx) {
 		}
 		if C11ReentrantClose != nil {
 			C11ReentrantClose(c, cr.next)
+		}
+		if C11RootHandle != nil {
+			C11RootHandle(c, cr.next)
 		}
 		if C11CreateVsClose != nil {
 			C11CreateVsClose(c, cr.next)
